@@ -56,7 +56,7 @@ class Program:
         self.eof = Tok("EOF", b"", "", len(self.toks))
         # the scanner reads  ';' white-space* '?>'  as ONE token: a close tag right after a ';' cannot be a statement of its own
         for i, t in enumerate(self.toks):
-            if t.lex == "?>" and i > 0 and self.toks[i - 1].text == b";":
+            if t.lex in ("?>", "?>NL") and i > 0 and self.toks[i - 1].text == b";":
                 raise Skip()
             # "{" opens an interpolated expression only when a "$" follows it at once ("{$a->b}", not "{A::$b}")
             if t.lex == "{" and t.glue == "LR" and i + 1 < len(self.toks) and not self.toks[i + 1].text.startswith(b"$"):
@@ -93,8 +93,12 @@ class Program:
             return r.choice(["0x%X", "0x%x"]) % (k + 10)      # "0X.." is valid PHP but rejected by the scanner: see C03's literal table
         if lex == "NUMSTR_BIN":
             return "0b" + bin(k)[2:]
+        if lex == "?>NL":
+            return "?>\n"
         if lex == "IDENT_RES":
             return r.choice(RESERVED_NAMES)
+        if lex == "IDENT_RES_NM":          # reserved words that are no member modifiers ("x as final" changes the visibility instead)
+            return r.choice([w for w in RESERVED_NAMES if w.lower() not in ("public", "protected", "private", "static", "abstract", "final", "var")])
         if lex == "IDXKEY":
             return r.choice(["key%d", "K_%d", "x%d"]) % k
         if lex in ("HEREDOC_START", "HEREDOC_START_DQ", "NOWDOC_START"):
@@ -187,8 +191,8 @@ class Program:
             if prev is None:
                 out.append("first")
             elif nxt is None:
-                out.append("none" if prev.lex == "HTML" else ("payload" if "P" in prev.glue else "last"))
-            elif prev.lex == "HTML":
+                out.append("none" if (prev.lex == "HTML" or "O" in prev.glue) else ("payload" if "P" in prev.glue else "last"))
+            elif prev.lex == "HTML" or ("O" in prev.glue and prev.lex != "HTML"):
                 out.append("open")                     # back to PHP: an open tag comes first
             elif "R" in prev.glue or "L" in nxt.glue:
                 out.append("none")
@@ -215,6 +219,9 @@ class Program:
             if gk[i] == "payload":
                 # raw data after __halt_compiler();  - not trivia: the same bytes under every layout; they would parse as PHP
                 pieces.append(("T_HALT_COMPILER", HALT_PAYLOAD))
+            if i > 0 and "W" in self.toks[i - 1].glue:
+                # only white space may follow (the scanner's property state knows no comments: see the C08 finding)
+                rp = [x for x in rp if x[0] == "T_WHITESPACE"]
             if i > 0 and "N" in self.toks[i - 1].glue and gk[i] != "none":
                 # PHP < 7.3: the ';' after a closing heredoc label must be followed by a line break (LF or CRLF); a
                 # recipe that starts with one provides it, otherwise one is put in front
@@ -360,6 +367,9 @@ RECIPES = {
     "hash_crlf": [("T_COMMENT", b"# c\r\n"), ("T_WHITESPACE", b"\t")],
     "empty_block": [("T_COMMENT", b"/**/")],
     "hash_empty": [("T_COMMENT", b"#\n")],
+    "many": [("T_WHITESPACE", b" "), ("T_COMMENT", b"// 1\n"), ("T_WHITESPACE", b"\t"), ("T_COMMENT", b"/* 2 */"), ("T_WHITESPACE", b"\n"), ("T_COMMENT", b"# 3\n"),
+             ("T_WHITESPACE", b"  "), ("T_DOC_COMMENT", b"/** 4 */"), ("T_WHITESPACE", b" ")],
+    "long_ws": [("T_WHITESPACE", b"                    \n                    ")],
     "line_empty": [("T_WHITESPACE", b"\t"), ("T_COMMENT", b"//\r\n")],
     "hash_cr_text": [("T_COMMENT", b"#x\n"), ("T_COMMENT", b"#\n"), ("T_WHITESPACE", b" ")],
     "cr": [("T_WHITESPACE", b"\r")],
